@@ -237,6 +237,24 @@ def make_model(rng, kind):
     if kind == "PCAVectorModel":
         m = PCAVectorModel(_dy(rng, (7, 5), 16, 4), centre=rng.random() < 0.75,
                            max_n_components=rng.choice([None, None, 3]), inplace=False)
+    elif kind in ("PCAModel.from_components", "PCAModel.from_covariance"):
+        # the alternative constructors keep `mean.as_vector()` as `_mean`: a READ-ONLY VIEW of the points / pixels of
+        # `template_instance`, i.e. an array that cannot be written through itself but changes when its base (reachable
+        # through another attribute) is written
+        if rng.random() < 0.6:
+            mean = add_landmarks(rng, make_shape(rng, "PointCloud", 2, 4), 2)
+        else:
+            mean = make_image(rng, "Image")
+        n = mean.as_vector().shape[0]
+        rs = np.random.RandomState(rng.randrange(1 << 30))
+        if kind == "PCAModel.from_components":
+            k = min(3, n - 1)
+            comps = np.linalg.qr(rs.randn(n, k))[0].T
+            m = PCAModel.init_from_components(comps, np.arange(k, 0, -1.0), mean, 10, rng.random() < 0.75)
+        else:
+            x = rs.randn(n, n + 4)
+            m = PCAModel.init_from_covariance_matrix(np.cov(x), mean, n + 4, centred=rng.random() < 0.75,
+                                                     max_n_components=rng.choice([None, 3]))
     else:
         if rng.random() < 0.5:
             samples = [add_landmarks(rng, make_shape(rng, "PointCloud", 2, 4), 2) for _ in range(6)]
@@ -270,7 +288,8 @@ def make_lazy(rng):
 
 SHAPE_LABELS = SHAPE_KINDS
 IMAGE_LABELS = ["Image", "MaskedImage", "BooleanImage"]
-MODEL_LABELS = ["LinearVectorModel", "MeanLinearVectorModel", "PCAVectorModel", "PCAModel"]
+MODEL_LABELS = ["LinearVectorModel", "MeanLinearVectorModel", "PCAVectorModel", "PCAModel",
+                "PCAModel.from_components", "PCAModel.from_covariance"]
 LABELS = (SHAPE_LABELS + IMAGE_LABELS + ["LandmarkManager", "LandmarkManager0"] + TRANSFORM_KINDS + ["CachedPWA"]
           + MODEL_LABELS + ["LazyList"])
 
